@@ -446,7 +446,7 @@ func replayC20(r *fw.Run, raw json.RawMessage) {
 func init() {
 	fw.Register(&fw.Engine{
 		ID: "C20", Level: "exploration",
-		Rule: "the full product LISTEN_PID in {own pid, other pid, unset, garbage} x LISTEN_FDS in {unset, '', 'foo', '-1', '0', '1', '2', '3'} x LISTEN_FDNAMES in {unset, one entry too many, one too few, varlink first / middle / last / twice / absent with the right arity} x kind of the descriptor that would be selected in {listening unix socket, regular file, pipe} = 768 configurations, enumerated completely (thorough: three times, with the non-selected descriptors being sockets, files, pipes), plus a few spellings outside the product ('+1', '01', ' 1', case and blank variants of 'varlink', an empty name). For each configuration a helper process inherits three distinguishable candidates as descriptors 3,4,5, sets LISTEN_PID as the case says and calls Service.Listen(fallback address). Oracle (model A.6 written from the statement): exactly one endpoint - the selected inherited socket, or the fallback address in every other environment incl. a selected descriptor that is not a socket - answers GetInfo with the helper's unique product string; no other candidate answers; the helper never panics. non-trivial = pid matches or LISTEN_FDS is set; distinct by hash of the configuration.",
+		Rule: "the full product LISTEN_PID in {own pid, other pid, unset, garbage} x LISTEN_FDS in {unset, '', 'foo', '-1', '0', '1', '2', '3'} x LISTEN_FDNAMES in {unset, one entry too many, one too few, varlink first / middle / last / twice / absent with the right arity} x kind of the descriptor that would be selected in {listening unix socket, regular file, pipe} = 768 configurations, enumerated completely (thorough: three times, with the non-selected descriptors being sockets, files, pipes), plus a few spellings outside the product ('+1', '01', ' 1', case and blank variants of 'varlink', an empty name). For each configuration a helper process inherits three distinguishable candidates as descriptors 3,4,5, sets LISTEN_PID as the case says and calls Service.Listen(fallback address). Oracle (model A.6 written from the statement): exactly one endpoint - the selected inherited socket, or the fallback address in every other environment incl. a selected descriptor that is not a socket - answers GetInfo with the helper's unique product string; no other candidate answers; the helper never panics. non-trivial = pid matches or LISTEN_FDS is set; distinct by hash of the configuration. Further spellings outside the product: numeric prefixes (1x, 1.5, 3;), pid with suffix or padding, name prefixes and case variants; whenever a descriptor is selected the address argument names an existing file or socket that must be left alone.",
 		Assumptions: []string{"'no other candidate answers' is checked with a 15 ms probe and is one-sided (an answer is a violation); the positive check has a 10 s bound", "descriptor numbers above 5 are not passed, so LISTEN_FDS > 3 is not generated"},
 		Run:         runC20, Replay: replayC20, CrashIsViolation: false, MinEvals: 100,
 		QuickTimeout: 15 * time.Minute, ThoroughTimeout: 60 * time.Minute,
